@@ -302,9 +302,9 @@ func (x *exec) assumeLeaf(st *State, l Leaf, v Term) {
 	case LSliceOff:
 		st.assume(Le(Zero, v))
 	case LSliceLen:
-		st.assume(Le(Zero, v))
+		st.assume(And(Le(Zero, v), Le(v, BigLit(p2(56))))) // physical bound on slice lengths
 	case LSliceCap:
-		st.assume(Le(Zero, v))
+		st.assume(And(Le(Zero, v), Le(v, BigLit(p2(56)))))
 	}
 }
 
